@@ -42,7 +42,11 @@ def run(ctx):
     ctx.step(c06.exception_identity, ctx, "C20.deferred-exc")
     # a functor that runs in the submitting thread (lock obtained) is applied directly, after the drain: its exception
     # reaches the submitter instead of vanishing in a packaged_task nobody holds a future for
-    ctx.step(c06.submit, ctx, "C20.deferred-submit")
+    if c06.striped_queue(ctx, "C20.deferred-order") is None:
+        ctx.step(c06.submit, ctx, "C20.deferred-submit")
+    else:
+        ctx.unknown("C20.deferred-submit: deferred_guarded keeps its pending work in several queues; the rule follows the single "
+                    "queue of the reference tree")
     ctx.step(c16.unlocked, ctx, "C20.dd-unlocked")
     # DelayedObjects: a throwing payload copy inside set_value must not leave the request half-retired
     from . import c18
